@@ -156,9 +156,15 @@ func checkStream(c *mon.C, shapes []gen.Shape, side ref.Side, nplans int) bool {
 				if bi == 1 {
 					o.Wrap = drive.Wraps[(c.I+ei+pi)%len(drive.Wraps)]
 				}
+				prelude := -1
+				if bi == 1 && o.Entry != "reader" {
+					// the process has read other connections before this one: one of them ended inside a text message
+					prelude = (c.I*7 + ei*3 + pi) % 24
+					drive.Prelude(prelude)
+				}
 				obs := drive.Run(ch, o)
 				det := func() map[string]interface{} {
-					return map[string]interface{}{"frames": gen.ShapesKey(shapes), "side": side, "entry": entry, "plan": plan.String(), "buf": o.Buf, "source": o.Wrap,
+					return map[string]interface{}{"frames": gen.ShapesKey(shapes), "side": side, "entry": entry, "plan": plan.String(), "buf": o.Buf, "source": o.Wrap, "prelude_connection_kind": prelude,
 						"discard": fmt.Sprint(o.Discard), "got": tail(drive.EventStrings(obs.Events)), "want": tail(drive.EventStrings(want)), "err": fmt.Sprint(obs.Err), "stream_len": len(stream)}
 				}
 				if obs.Spin {
